@@ -22,6 +22,7 @@ import (
 	_ "crypto/sha512"
 	"fmt"
 	"sort"
+	"time"
 
 	"golang.org/x/crypto/openpgp/s2k"
 	_ "golang.org/x/crypto/ripemd160"
@@ -96,7 +97,7 @@ type item struct {
 func run(c *vf.Ctx) {
 	c.Rule("full grid type{simple,salted,iterated} x 7 hashes x all 256 coded counts x keyLen{1,hLen,hLen+1,2hLen+1,64} x passLen{0,1,8,100} " +
 		"for coded counts below the tier's full-grid limit (quick 128, thorough 224), above it every coded count with a reduced (keyLen,passLen) set " +
-		"(rotating with the count octet, always a multi-context key below 224; 224..255 = up to 65 MB per context: one key size, one passphrase); " +
+		"(rotating with the count octet; a multi-context key for every count octet below 192, every fourth one in 192..223 and one or two per hash in 224..255, which hash up to 65 MB per context: one key size, one passphrase); " +
 		"direct functions on the same grid plus raw counts k*unit-1, k*unit, k*unit+1; Serialize for S2KCount at v-1,v,v+1 of every representable v x 7 hashes; " +
 		"non-trivial = distinct (type,hash,count,keyLen,passLen) whose key needs >= 2 hash contexts or whose iterated stream ends inside a salt||passphrase unit; " +
 		"oracle = verif/ref/s2kref (RFC 4880 3.7.1 model, validated against libgcrypt gcry_kdf_derive and python hashlib)")
@@ -121,10 +122,13 @@ func run(c *vf.Ctx) {
 				it.combos = full
 				it.direct = cc < 128
 			case cc < 224:
-				// reduced: one multi-context key length and one passphrase length, rotating with cc
+				// reduced: one key length and one passphrase length, rotating with cc; a multi-context
+				// key for every count octet below 192 and for every fourth one above
 				kl := hLen + 1
 				if cc%4 == 1 || c.Thorough && cc%2 == 1 {
 					kl = 2*hLen + 1 // third context
+				} else if cc >= 192 && !c.Thorough {
+					kl = hLen
 				}
 				pl := passLens[(cc/2)%4]
 				it.combos = []combo{{kl, pl}}
@@ -134,7 +138,7 @@ func run(c *vf.Ctx) {
 			default:
 				// 16..65 MB per hash context: one key size and one passphrase only
 				kl := hLen
-				if c.Thorough || cc == 224+hi || cc == 255-hi {
+				if c.Thorough || cc == 224+hi || cc == 255-hi && hi < 2 {
 					kl = hLen + 1 // second context (one zero octet preloaded) with a huge count
 				}
 				it.combos = []combo{{kl, 8}}
@@ -149,10 +153,15 @@ func run(c *vf.Ctx) {
 	// most expensive first, so that the tail of the parallel loop is short
 	sort.SliceStable(items, func(i, j int) bool { return items[i].cost > items[j].cost })
 
+	t0 := time.Now()
 	c.ParallelFor(len(items), func(i int) { runItem(c, i, items[i]) })
-
+	c.Set("phase_s_grid", time.Since(t0).Seconds())
+	t0 = time.Now()
 	directRawCounts(c)
+	c.Set("phase_s_raw", time.Since(t0).Seconds())
+	t0 = time.Now()
 	serializeGrid(c)
+	c.Set("phase_s_serialize", time.Since(t0).Seconds())
 	parseRejects(c)
 }
 
@@ -334,10 +343,13 @@ func serializeGrid(c *vf.Ctx) {
 			for d := -1; d <= 1; d++ {
 				// key length 0: header and parse-back only (no hashing), every boundary, every hash
 				cases = append(cases, cfgCase{hi, v + d, 0, 8})
-				if cc < 128 || (d == 0 && cc%7 == hi && (cc < 224 || cc == 224+hi || cc == 255-hi)) {
+				if cc < 128 || (d == 0 && cc%7 == hi && (cc < 224 || cc == 224+hi || cc == 255 && hi == 1)) {
 					kl := kls[(cc+d+1)%len(kls)]
 					if cc >= 160 {
 						kl = h.alg.Len + 1
+					}
+					if cc >= 192 && cc%4 != 0 {
+						kl = h.alg.Len
 					}
 					cases = append(cases, cfgCase{hi, v + d, kl, passLens[(cc/3)%4]})
 				}
